@@ -431,6 +431,10 @@ impl<'u> Driver<'u> {
         }
     }
 
+    pub fn u(&self) -> &'u Universe {
+        self.u
+    }
+
     pub fn st(&self) -> &Store {
         self.store.as_ref().expect("store open")
     }
